@@ -255,6 +255,31 @@ theorem v0_senders_recorded (s : V0.State) (tx : Bytes) (v : Verdict) (peer : Na
 example : ((V0.run (V0.init exCfg0b 0) [.check [1] {} 7, .check [2] {} 7, .check [1] {} 9]).txs.map
     (fun e => (e.tx, e.senders))) = [([1], [7, 9]), ([2], [7])] := by decide
 
+/-- **what "remembered" means.** The tx cache remembers the last `CacheSize` distinct keys BY MOST
+RECENT PUSH (a push of a key already cached — a resubmission, or the commit of a cached tx in
+`Update` — refreshes its recency; `Remove` forgets). Precisely: after a push of `k`, whatever pushes
+and removals of OTHER keys follow, `k` is still cached as long as fewer than `CacheSize` distinct
+other keys are pushed (`hfew`: no duplicate-free list of later-pushed keys reaches the cache size).
+Every operation the pools perform on the cache is such a push or removal (or `Reset`), the caches
+of reachable pools satisfy `c.OK` (`v0_cache_bounded`, `v1_cache_bounded`), so with
+`v0_/v1_no_readmit_while_cached` a transaction committed or submitted that recently is refused. -/
+theorem cache_remembers_recent (c : Cache) (hok : c.OK) (hpos : 0 < c.size) (k : Bytes)
+    (ops : List CacheOp) (hne : ∀ o ∈ ops, o.key ≠ k)
+    (hfew : ∀ l : List Bytes, l.Nodup → (∀ x ∈ l, x ∈ pushedKeys ops) → k ∉ l →
+      (l.length : Int) < c.size) :
+    ((c.push k).1.applyAll ops).has k = true := by
+  apply Cache.holds_has (D := pushedKeys ops)
+  apply Cache.holds_all k (pushedKeys ops) ops _ (Cache.holds_push c k _ hok hpos) hne
+    (fun j hj => mem_pushedKeys hj)
+  rw [Cache.push_size]; exact hfew
+
+/-- cache of size 3: `[9]` is pushed, then two other keys, one of them twice, and a removal — still
+remembered; a third distinct key would be allowed to push it out -/
+example : (((Cache.new 3).push [9]).1.applyAll
+    [.push [1], .push [2], .push [1], .remove [2], .push [2]]).has [9] = true ∧
+    (((Cache.new 3).push [9]).1.applyAll [.push [1], .push [2], .push [3]]).has [9] = false := by
+  decide
+
 /-! ## v0 over an asynchronous FIFO ABCI client (socket / grpc discipline)
 
 `V0.AState`: `CheckTx` only queues its request, responses are handled one at a time later
